@@ -267,6 +267,10 @@ class AccountMonitor:
         jq = float(ex.assets[ex.settlement_currency])
         if not _close(float(m.quote), jq):
             bad = ('quote', float(m.quote), jq)
+        elif float(m.quote) != jq:
+            # the balances are kept with the framework's decimal helpers, whose stated contract is exactness:
+            # a value that is close but not equal is a drift (e.g. a plain float += somewhere)
+            bad = ('quote-drift', float(m.quote), jq)
         if bad is None and jq < 0:
             bad = ('quote-negative', 0, jq)
         if bad is None:
@@ -275,6 +279,9 @@ class AccountMonitor:
                 jb = float(ex.assets[base])
                 if not _close(float(m.base[s]), jb, 0):
                     bad = ('base', float(m.base[s]), jb)
+                    break
+                if float(m.base[s]) != jb:
+                    bad = ('base-drift', float(m.base[s]), jb)
                     break
                 if jb < 0:
                     bad = ('base-negative', 0, jb)
